@@ -395,3 +395,48 @@ def initial_total_flux(pv, t_feed, comp, tp, pp, model, perms=None):
         permeate_temperature=tp, permeate_pressure=pp, calculation_type=model, **kw
     )
     return j
+
+
+# --------------------------------------------------------------------------- flux-solver cases (C02, C08, C09, C10)
+class FluxCase:
+    """one call of the flux solver: everything needed to make it, plus a json-able description"""
+
+    def __init__(self, rng, modes=None, models=("NRTL", "UNIQUAC"), p_membrane=0.15, p_synth=0.4, edge=0.001):
+        self.mix, self.mdesc = gen_mixture(rng, p_synth)
+        self.model = rng.choice(list(models))
+        self.membrane = gen_membrane(rng, self.mix)
+        self.pv = Pervaporation(self.membrane, self.mix)
+        self.t_feed = rng.uniform(273.0, 400.0)
+        self.comp = gen_composition(rng, self.mix, edge=edge)
+        self.mode = rng.choice(modes or MODES)
+        self.from_membrane = rng.random() < p_membrane
+        if self.from_membrane:
+            self.p1 = self.membrane.get_permeance(self.t_feed, self.mix.first_component)
+            self.p2 = self.membrane.get_permeance(self.t_feed, self.mix.second_component)
+        else:
+            self.p1 = Permeance(value=gen_permeance_value(rng))
+            self.p2 = Permeance(value=gen_permeance_value(rng))
+        self.precision = loguniform(rng, 1e-8, 1e-3)
+        try:
+            self.tp, self.pp = gen_permeate(rng, self.mode, self.mix, self.t_feed, self.comp, self.model)
+        except Exception:
+            self.tp, self.pp = None, None
+            self.mode = "V"
+
+    def kwargs(self, explicit_permeances=None):
+        kw = dict(feed_temperature=self.t_feed, composition=self.comp, precision=self.precision,
+                  permeate_temperature=self.tp, permeate_pressure=self.pp, calculation_type=self.model)
+        if explicit_permeances is None:
+            explicit_permeances = not self.from_membrane
+        if explicit_permeances:
+            kw["first_component_permeance"] = self.p1
+            kw["second_component_permeance"] = self.p2
+        return kw
+
+    def describe(self):
+        d = {"mixture": self.mdesc, "model": self.model, "T": self.t_feed, "x": describe_composition(self.comp),
+             "mode": self.mode, "Tp": self.tp, "pp": self.pp, "P": [self.p1.value, self.p2.value],
+             "precision": self.precision, "permeances_from_membrane": self.from_membrane}
+        if self.from_membrane:
+            d["membrane"] = describe_membrane(self.membrane)
+        return d
